@@ -218,6 +218,7 @@ func genCaseC09(t *rapid.T) *Case {
 	d, vars := GenDoc(t, s, p, false)
 	c := &Case{Schema: s, Graph: g, Doc: d, Vars: vars, Layout: GenLayout(t), ListSeed: rapid.IntRange(0, 1<<20).Draw(t, "listSeed")}
 	c.Assign, c.AnyInstalled = GenAssign(t, g, strategy)
+	c.Warm = GenWarm(t, s, p)
 	c.Op = d.Ops[0].Name
 	if strategy == "X" {
 		for _, td := range s.Types {
